@@ -240,8 +240,16 @@ class _RenameNames(ast.NodeTransformer):
 
 def _bind_args(helper, call: ast.Call, is_method: bool) -> Optional[Dict[str, ast.expr]]:
     a = helper.args
-    if a.vararg or a.kwarg or any(isinstance(x, ast.Starred) for x in call.args) or any(k.arg is None for k in call.keywords):
+    star = [k for k in call.keywords if k.arg is None]
+    if a.vararg or any(isinstance(x, ast.Starred) for x in call.args):
         return None
+    # helper(..., **kwargs) called with (..., **kwargs): the mapping is handed over as it is
+    kw_bind = None
+    if a.kwarg or star:
+        if not (a.kwarg and len(star) == 1 and isinstance(star[0].value, ast.Name)):
+            return None
+        kw_bind = (a.kwarg.arg, star[0].value)
+    call = ast.Call(func=call.func, args=call.args, keywords=[k for k in call.keywords if k.arg is not None])
     pos = [x.arg for x in a.posonlyargs + a.args]
     if is_method:
         if not pos:
@@ -268,6 +276,8 @@ def _bind_args(helper, call: ast.Call, is_method: bool) -> Optional[Dict[str, as
             if p not in dfl:
                 return None
             bound[p] = dfl[p]
+    if kw_bind is not None:
+        bound[kw_bind[0]] = kw_bind[1]
     return bound
 
 
@@ -367,6 +377,13 @@ def _hoist_helper_calls(fn, table: HelperTable):
     for owner, f, stmts in _blocks(fn):
         new: List[ast.stmt] = []
         for st in stmts:
+            if isinstance(st, ast.For) and isinstance(st.iter, ast.Call) and table.lookup(st.iter):
+                name, helper, is_m = table.lookup(st.iter)
+                hb = _strip_block(strip(copy.deepcopy(helper)).body)
+                if not (len(hb) == 1 and isinstance(hb[0], ast.Return)):
+                    tmp = "_hc" + _fresh_suffix()
+                    new.append(ast.Assign(targets=[ast.Name(id=tmp, ctx=ast.Store())], value=st.iter))
+                    st.iter = ast.Name(id=tmp, ctx=ast.Load())
             if isinstance(st, (ast.Expr, ast.Assign, ast.Return, ast.AugAssign)) and not (
                 isinstance(getattr(st, "value", None), ast.Call) and table.lookup(st.value)
             ):
@@ -576,6 +593,58 @@ def _reads_name(node, name: str) -> bool:
             if isinstance(n, ast.Name) and n.id == name and isinstance(n.ctx, ast.Load):
                 return True
     return False
+
+
+def merge_param_alias(fn):
+    """v = p  (p a parameter that is never assigned and never read again)  ->  v is p: the local takes
+    over the parameter's name.  (An extracted helper that re-assigns its parameter leaves such a copy
+    behind when it is inlined back.)"""
+    params = set(_params(fn))
+    for i, st in enumerate(fn.body):
+        if not (isinstance(st, ast.Assign) and len(st.targets) == 1 and isinstance(st.targets[0], ast.Name) and isinstance(st.value, ast.Name)):
+            continue
+        v, p = st.targets[0].id, st.value.id
+        if p not in params or v in params or v == p:
+            continue
+        names = [n for n in ast.walk(fn) if isinstance(n, ast.Name)]
+        if any(n.id == p and isinstance(n.ctx, (ast.Store, ast.Del)) for n in names):
+            continue
+        later_p = [n for s2 in fn.body[i + 1:] for n in ast.walk(s2) if isinstance(n, ast.Name) and n.id == p]
+        earlier_v = [n for s2 in fn.body[:i] for n in ast.walk(s2) if isinstance(n, ast.Name) and n.id == v]
+        if later_p or earlier_v:
+            continue
+        if any(isinstance(n, (ast.Lambda, ast.FunctionDef)) for s2 in fn.body for n in ast.walk(s2) if n is not fn):
+            continue
+        for n in names:
+            if n.id == v:
+                n.id = p
+        del fn.body[i]
+        if not fn.body:
+            fn.body.append(ast.Pass())
+        return merge_param_alias(fn)
+    return fn
+
+
+def fuse_chains(fn):
+    """x = E1 ; x = E2(x)   ->   x = E2(E1)   when E1 is pure and x occurs once in E2 (a call chain
+    split over two statements, or the reverse)."""
+    for owner, f, stmts in _blocks(fn):
+        i = 0
+        while i + 1 < len(stmts):
+            a, b = stmts[i], stmts[i + 1]
+            if (isinstance(a, ast.Assign) and isinstance(b, ast.Assign) and len(a.targets) == 1 and len(b.targets) == 1
+                    and isinstance(a.targets[0], ast.Name) and isinstance(b.targets[0], ast.Name) and a.targets[0].id == b.targets[0].id
+                    and not _impure(a.value)):
+                x = a.targets[0].id
+                uses = [n for n in ast.walk(b.value) if isinstance(n, ast.Name) and n.id == x and isinstance(n.ctx, ast.Load)]
+                inside_scope = any(isinstance(n, (ast.ListComp, ast.SetComp, ast.DictComp, ast.GeneratorExp, ast.Lambda)) and any(u is z for z in ast.walk(n)) for n in ast.walk(b.value) for u in uses)
+                if len(uses) == 1 and not inside_scope:
+                    _replace_node(b, uses[0], a.value)
+                    del stmts[i]
+                    continue
+            i += 1
+    ast.fix_missing_locations(fn)
+    return fn
 
 
 def drop_unused(fn):
@@ -904,8 +973,46 @@ _BUILTIN_PURE = {"len", "list", "sorted", "set", "dict", "tuple", "str", "int", 
 _LIB_PURE_METHODS = {"values", "get", "keys", "items", "index", "copy"}  # dict / list / pandas readers that repo classes also define (as readers)
 
 
+def _fresh_locals(fn) -> Set[str]:
+    """Locals every binding of which creates a new object in the function (display, comprehension,
+    constructor-like call): mutating them is invisible outside."""
+    params = set(_params(fn))
+    defs: Dict[str, List[Optional[ast.expr]]] = {}
+    for n in _walk_no_nested(fn):
+        if isinstance(n, ast.Assign):
+            for t in n.targets:
+                if isinstance(t, ast.Name):
+                    defs.setdefault(t.id, []).append(n.value if len(n.targets) == 1 else None)
+                else:
+                    for x in ast.walk(t):
+                        if isinstance(x, ast.Name) and isinstance(x.ctx, ast.Store):
+                            defs.setdefault(x.id, []).append(None)
+        elif isinstance(n, ast.AnnAssign) and isinstance(n.target, ast.Name):
+            defs.setdefault(n.target.id, []).append(n.value)
+        elif isinstance(n, (ast.For, ast.comprehension)):
+            for x in ast.walk(n.target):
+                if isinstance(x, ast.Name):
+                    defs.setdefault(x.id, []).append(None)
+        elif isinstance(n, ast.With):
+            for it in n.items:
+                if it.optional_vars is not None:
+                    for x in ast.walk(it.optional_vars):
+                        if isinstance(x, ast.Name):
+                            defs.setdefault(x.id, []).append(None)
+
+    def fresh(e) -> bool:
+        if isinstance(e, (ast.List, ast.ListComp, ast.Dict, ast.DictComp, ast.Set, ast.SetComp)):
+            return True
+        if isinstance(e, ast.Call) and isinstance(e.func, ast.Name) and e.func.id in ("list", "dict", "set", "sorted", "DataFrame", "Series", "GroupedList"):
+            return True
+        return False
+
+    return {v for v, ds in defs.items() if v not in params and ds and all(d is not None and fresh(d) for d in ds)}
+
+
 def _function_is_pure(fn, pure: Set[str], repo: Set[str], constructor: bool = False) -> bool:
     params = set(_params(fn))
+    fresh_locals = _fresh_locals(fn)
     if constructor:
         params.discard("self")
     for n in _walk_no_nested(fn):
@@ -917,6 +1024,8 @@ def _function_is_pure(fn, pure: Set[str], repo: Set[str], constructor: bool = Fa
                 base = base.value
             if constructor and isinstance(base, ast.Name) and base.id == "self":
                 continue
+            if isinstance(base, ast.Name) and base.id in fresh_locals:
+                continue
             return False
         if isinstance(n, ast.AugAssign) and isinstance(n.target, ast.Name) and n.target.id in params:
             return False
@@ -926,6 +1035,8 @@ def _function_is_pure(fn, pure: Set[str], repo: Set[str], constructor: bool = Fa
             f = n.func
             if isinstance(f, ast.Attribute):
                 if f.attr in MUTATORS and f.attr not in PANDAS_PURE:
+                    if isinstance(f.value, ast.Name) and f.value.id in fresh_locals:
+                        continue  # a fresh object of this function
                     if constructor and isinstance(f.value, ast.Name) and f.value.id not in params:
                         continue  # a local of the constructor
                     if constructor and isinstance(f.value, ast.Attribute) and isinstance(f.value.value, ast.Name) and f.value.value.id == "self":
@@ -1087,6 +1198,10 @@ class _ExprCanon(ast.NodeTransformer):
         n.test = self._test(n.test)
         if isinstance(n.test, ast.UnaryOp) and isinstance(n.test.op, ast.Not):
             n.test, n.body, n.orelse = n.test.operand, n.orelse, n.body
+        elif isinstance(n.test, ast.Compare) and len(n.test.ops) == 1 and isinstance(n.test.ops[0], (ast.NotEq, ast.NotIn, ast.IsNot)):
+            pos = {ast.NotEq: ast.Eq, ast.NotIn: ast.In, ast.IsNot: ast.Is}[type(n.test.ops[0])]
+            n.test = self.visit_Compare(ast.Compare(left=n.test.left, ops=[pos()], comparators=n.test.comparators))
+            n.body, n.orelse = n.orelse, n.body
         return n
 
     def visit_comprehension(self, n):
@@ -1818,7 +1933,10 @@ def split_variables(fn):
                 defs.append((order[id(loop)], loop.body, s, loop, loop))
                 continue
             st = stmt_of.get(id(s))
-            if not (isinstance(st, ast.Assign) and len(st.targets) == 1 and st.targets[0] is s):
+            plain = isinstance(st, ast.Assign) and len(st.targets) == 1 and st.targets[0] is s
+            in_tuple = (isinstance(st, ast.Assign) and len(st.targets) == 1 and isinstance(st.targets[0], ast.Tuple)
+                        and any(e is s for e in st.targets[0].elts) and all(isinstance(e, ast.Name) for e in st.targets[0].elts))
+            if not (plain or in_tuple):
                 ok = False
                 break
             defs.append((order[id(st)], block_of[id(st)], s, None, st))
@@ -1970,7 +2088,7 @@ def _replace_node(root, old, new):
 # pass 6: canonical names and canonical order of independent statements
 # ---------------------------------------------------------------------------------------------
 class _Eff:
-    __slots__ = ("reads", "writes", "attr_reads", "attr_writes", "opaque", "jump", "local_only", "bare_reads", "attr_bases")
+    __slots__ = ("reads", "writes", "attr_reads", "attr_writes", "opaque", "jump", "local_only", "bare_reads", "attr_bases", "total")
 
 
 def _effects(st) -> _Eff:
@@ -2049,14 +2167,26 @@ def _effects(st) -> _Eff:
             else:
                 e.opaque = True
     e.local_only = not e.attr_reads and not e.attr_writes and not any(isinstance(n, (ast.Call, ast.Subscript)) for n in [st] + list(_walk_no_nested(st)))
+    # a statement that cannot raise: names / constants / displays of them stored into names or self.<attr>
+    def _total_value(v):
+        if isinstance(v, (ast.Name, ast.Constant)):
+            return True
+        if isinstance(v, (ast.List, ast.Tuple)):
+            return all(_total_value(x) for x in v.elts)
+        if isinstance(v, ast.Dict):
+            return all(k is not None and _total_value(k) and _total_value(x) for k, x in zip(v.keys, v.values))
+        return False
+
+    e.total = isinstance(st, ast.Assign) and _total_value(st.value) and all(
+        isinstance(t, ast.Name) or (isinstance(t, ast.Attribute) and isinstance(t.value, ast.Name) and t.value.id == "self") for t in st.targets)
     return e
 
 
 def _commute(a: _Eff, b: _Eff) -> bool:
-    if (a.jump == "assert" and b.local_only and not b.jump and not b.opaque) or (b.jump == "assert" and a.local_only and not a.jump and not a.opaque):
+    if (a.jump == "assert" and (b.local_only or b.total) and not b.jump and not b.opaque) or (b.jump == "assert" and (a.local_only or a.total) and not a.jump and not a.opaque):
         # an assertion and an assignment that cannot raise (names / constants / displays only)
         x, y = (a, b) if a.jump == "assert" else (b, a)
-        return not (y.writes & x.reads)
+        return not (y.writes & x.reads) and not (y.attr_writes & x.attr_reads)
     if a.jump or b.jump:
         return False
     if a.opaque and b.opaque:
@@ -2203,6 +2333,8 @@ def canon(fn, table: Optional[HelperTable] = None):
         fn = fuse_accumulators(fn)
         fn = expressions(fn)
         fn = drop_unused(fn)
+        fn = fuse_chains(fn)
+        fn = merge_param_alias(fn)
         fn = split_variables(fn)
         fn = inline_temporaries(fn)
         for owner, f, stmts in _blocks(fn):
